@@ -14,28 +14,32 @@
    ternary [0,1,2] none [0] [0,1] [0,2] and, through the reverse map, [1] [2] [1,2]; index_get, iter_all,
    contains_key — being proved against the closure; neither the parallel wrapper nor the reverse-map views panic.
 
-   The statement of the property itself is about PROGRAMS ("run() leaves exactly the least model of the program
+   The statement of the property itself is about PROGRAMS: "run() leaves exactly the least model of the program
    plus the explicit reflexivity / symmetry / transitivity rules, and every rule reading the relation derives what
-   it would derive from that explicit relation").  That is the composition of the provider laws with the engine
-   theorem (Engine/Main.v):
-
-       engine_with_providers :
-         validate arities P pl = true -> every `ds` relation r of P is served by a provider meeting
-         provider_ok with closure cl_r -> run_plan_ds fuel pl (init_state F0) = Some st ->
-         least_model I (P ++ closure_rules P) F0 (rows st ++ what the providers' totals serve)
-
-   It needs (1) an engine model `run_plan_ds` (Engine/Eval.v extended) in which a clause over a ds relation reads
-   `p_get / p_all` of the provider state instead of an index of the shared multiset, the head update is
-   `p_contains total || p_contains delta || p_ins`, and the per-iteration / per-stratum protocol is PMerge /
-   PRestart; (2) Engine/EvalSpec.v's eval_variant_spec for such clauses, from P4 (a Delta position may be
-   over-approximated inside total + delta: sound because total + delta is inside every closed superset, harmless
-   for completeness) and P5; (3) Engine/SemiNaive.v's stratum invariant with "closed" extended by the closure
-   rules: Provider.merge_total is (SN) for the closure rules, Provider.served_closed their closedness at every loop
-   head, Provider.quiescent_exit / first_insert_succeeds give "changed = false => the stored total is closed",
-   Provider.restart_serves hands the relation to the next stratum.  The provider side is proved below (the
-   c10_engine_facing theorems); the engine-side extension is not done: the composition is carried by the PROG half
-   of the tie (tagged program vs explicit program against the specification oracle, gen/props/c10.py). *)
+   it would derive from that explicit relation".  This is a theorem too (engine_with_providers):
+   Engine/EvalProv.v is the engine model with one provider-backed relation r0 (rules read p_read of total / delta,
+   the head update is contains_key(total) || contains_key(delta) || insert_if_not_present(new), PMerge per
+   iteration, PRestart per stratum), Engine/ProvProofs.v proves `prun_plan_correct` from `provider_ok`, and
+   Byods/EqRelProgram.v instantiates it with the proved providers transported to `list Z` tuples
+   (Byods/Transport.v) and proves that being closed under the closure operator IS being closed under the explicit
+   rules as Engine/Core.v rules (rules2 / rules3, per key for the ternary form):
+     c10_program_binary / _binary_par / _ternary    least_model_cl I P cl r0 F0 (pfacts ...)
+     c10_bridge_binary / _ternary                    least_model_cl I P cl r0 F0 M <-> least_model I (P ++ rules r0) F0 M
+     c10_binary_is_explicit_closure / ...            the two composed: the property's wording.
+   Scope of the program-level theorems: programs without aggregates, one tagged relation, input without rows of
+   the tagged relation (it has no Vec), every interpretation of the expression symbols, every join-order oracle,
+   every plan accepted by the validator, every terminating run.  The parallel provider appears as a sequential
+   provider of atomic insertions inside the SERIAL engine model; the parallel engine around it (rayon iteration,
+   concurrent head updates of the plain relations) is C02's subject.  What remains carried by the tie only:
+   the correspondence of the models (provider and engine) with the real code, keyed-view use by generated code
+   (the engine model reads through p_read; P4 relates the keyed views to it), aggregates over the tagged relation. *)
 From Coq Require Import List ZArith Bool.
+From AV Require Import Engine.Core.
+From AV Require Import Engine.Sem.
+From AV Require Import Engine.Validate.
+From AV Require Import Engine.Naive.
+From AV Require Import Engine.EvalProv.
+From AV Require Import Engine.InterfaceProv.
 From AV Require Import Byods.EqRelModel.
 From AV Require Import Byods.EqRelUF.
 From AV Require Import Byods.Closure.
@@ -45,6 +49,7 @@ From AV Require Import Byods.EqRelPar.
 From AV Require Import Byods.Ternary.
 From AV Require Import Byods.EqRelTernary.
 From AV Require Import Byods.EqRelTernaryBeforeFix.
+From AV Require Import Byods.EqRelProgram.
 Import ListNotations.
 Open Scope Z_scope.
 
@@ -129,6 +134,60 @@ Theorem c10_ternary_ind12_refuted_before_fix : forall b,
             /\ ~ In (1, (0, 1)) (served T3z (eqrel_ternary_before_fix b) (run T3z (eqrel_ternary_before_fix b) h_i12)).
 Proof. exact ternary_i12_refuted_before_fix. Qed.
 
+(* ------------------------------------------------------------------ programs (engine_with_providers) *)
+(* binary form, serial *)
+Theorem c10_program_binary : forall (I : interp) (swap : list tuple -> list tuple -> bool) (r0 : Core.rel) arities P pl fuel F0 st,
+  In (r0, 2%nat) arities -> arities_functional arities -> wf_facts arities F0 = true -> no_agg P = true ->
+  (forall f, In f F0 -> fst f <> r0) -> validate arities P pl = true ->
+  prun_plan I swap eqrel_binary_tuple r0 fuel pl F0 = Some st ->
+  least_model_cl I P eqv_cl2 r0 F0 (pfacts eqrel_binary_tuple r0 st).
+Proof. exact program_binary. Qed.
+(* binary form, the parallel provider as a sequential provider of atomic steps (the parallel engine is C02's subject) *)
+Theorem c10_program_binary_par : forall (I : interp) (swap : list tuple -> list tuple -> bool) (r0 : Core.rel) arities P pl fuel F0 st,
+  In (r0, 2%nat) arities -> arities_functional arities -> wf_facts arities F0 = true -> no_agg P = true ->
+  (forall f, In f F0 -> fst f <> r0) -> validate arities P pl = true ->
+  prun_plan I swap eqrel_par_tuple r0 fuel pl F0 = Some st ->
+  least_model_cl I P eqv_cl2 r0 F0 (pfacts eqrel_par_tuple r0 st).
+Proof. exact program_binary_par. Qed.
+(* ternary form *)
+Theorem c10_program_ternary : forall (I : interp) (swap : list tuple -> list tuple -> bool) (r0 : Core.rel) arities P pl fuel F0 st,
+  In (r0, 3%nat) arities -> arities_functional arities -> wf_facts arities F0 = true -> no_agg P = true ->
+  (forall f, In f F0 -> fst f <> r0) -> validate arities P pl = true ->
+  prun_plan I swap eqrel_ternary_tuple r0 fuel pl F0 = Some st ->
+  least_model_cl I P eqv_cl3 r0 F0 (pfacts eqrel_ternary_tuple r0 st).
+Proof. exact program_ternary. Qed.
+
+(* the bridge to the property's wording: least model with the closure operator on r0 = least model of the program
+   extended with the explicit rules
+     rules2 r0:  eq(x,x), eq(y,y), eq(y,x) <-- eq(x,y);        eq(x,z) <-- eq(x,y), eq(y,z);
+     rules3 r0:  eq(k,x,x), eq(k,y,y), eq(k,y,x) <-- eq(k,x,y);  eq(k,x,z) <-- eq(k,x,y), eq(k,y,z);   *)
+Theorem c10_bridge_binary : forall (I : interp) P (r0 : Core.rel) F0 M,
+  least_model_cl I P eqv_cl2 r0 F0 M <-> least_model I (P ++ rules2 r0) F0 M.
+Proof. exact bridge_binary. Qed.
+Theorem c10_bridge_ternary : forall (I : interp) P (r0 : Core.rel) F0 M,
+  least_model_cl I P eqv_cl3 r0 F0 M <-> least_model I (P ++ rules3 r0) F0 M.
+Proof. exact bridge_ternary. Qed.
+
+(* composed: what the program value holds after run() is the least model of the program with the explicit rules *)
+Theorem c10_binary_is_explicit_closure : forall (I : interp) (swap : list tuple -> list tuple -> bool) (r0 : Core.rel) arities P pl fuel F0 st,
+  In (r0, 2%nat) arities -> arities_functional arities -> wf_facts arities F0 = true -> no_agg P = true ->
+  (forall f, In f F0 -> fst f <> r0) -> validate arities P pl = true ->
+  prun_plan I swap eqrel_binary_tuple r0 fuel pl F0 = Some st ->
+  least_model I (P ++ rules2 r0) F0 (pfacts eqrel_binary_tuple r0 st).
+Proof. intros I swap r0 arities P pl fuel F0 st H1 H2 H3 H4 H5 H6 H7. apply bridge_binary. exact (program_binary I swap r0 arities P pl fuel F0 st H1 H2 H3 H4 H5 H6 H7). Qed.
+Theorem c10_binary_par_is_explicit_closure : forall (I : interp) (swap : list tuple -> list tuple -> bool) (r0 : Core.rel) arities P pl fuel F0 st,
+  In (r0, 2%nat) arities -> arities_functional arities -> wf_facts arities F0 = true -> no_agg P = true ->
+  (forall f, In f F0 -> fst f <> r0) -> validate arities P pl = true ->
+  prun_plan I swap eqrel_par_tuple r0 fuel pl F0 = Some st ->
+  least_model I (P ++ rules2 r0) F0 (pfacts eqrel_par_tuple r0 st).
+Proof. intros I swap r0 arities P pl fuel F0 st H1 H2 H3 H4 H5 H6 H7. apply bridge_binary. exact (program_binary_par I swap r0 arities P pl fuel F0 st H1 H2 H3 H4 H5 H6 H7). Qed.
+Theorem c10_ternary_is_explicit_closure : forall (I : interp) (swap : list tuple -> list tuple -> bool) (r0 : Core.rel) arities P pl fuel F0 st,
+  In (r0, 3%nat) arities -> arities_functional arities -> wf_facts arities F0 = true -> no_agg P = true ->
+  (forall f, In f F0 -> fst f <> r0) -> validate arities P pl = true ->
+  prun_plan I swap eqrel_ternary_tuple r0 fuel pl F0 = Some st ->
+  least_model I (P ++ rules3 r0) F0 (pfacts eqrel_ternary_tuple r0 st).
+Proof. intros I swap r0 arities P pl fuel F0 st H1 H2 H3 H4 H5 H6 H7. apply bridge_ternary. exact (program_ternary I swap r0 arities P pl fuel F0 st H1 H2 H3 H4 H5 H6 H7). Qed.
+
 (* non-vacuity: a history with facts for one class over two rounds, a stratum boundary, and the readings *)
 Example c10_example_binary :
   let h := [PIns (0, 1); PMerge; PIns (1, 2); PIns (0, 2); PMerge] in
@@ -158,4 +217,7 @@ Print Assumptions c10_ternary_lifting. Print Assumptions c10_eqrel_ternary_lifte
 Print Assumptions c10_eqrel_ternary_provider_ok. Print Assumptions c10_eqrel_ternary_closure.
 Print Assumptions c10_eqrel_ternary_never_panics. Print Assumptions c10_eqrel_ternary_is_per_key_binary.
 Print Assumptions c10_ternary_refuted_before_fix. Print Assumptions c10_ternary_ind12_refuted_before_fix.
+Print Assumptions c10_program_binary. Print Assumptions c10_program_binary_par. Print Assumptions c10_program_ternary.
+Print Assumptions c10_bridge_binary. Print Assumptions c10_bridge_ternary.
+Print Assumptions c10_binary_is_explicit_closure. Print Assumptions c10_binary_par_is_explicit_closure. Print Assumptions c10_ternary_is_explicit_closure.
 Print Assumptions c10_example_binary. Print Assumptions c10_example_ternary.
